@@ -199,7 +199,7 @@ def run(tier):
         assumptions=["definitions are those listed in the property (mach = |velocity|/asound >= 0, judged by its own clause)",
                      "TLC integers are 32 bit: exact records use small rational states; irrational variables (asound, mach) are compared "
                      "through their squares, entropy through the harness-evaluated logarithm (ulps)"],
-        mc_runs=[("MC_Vars", "MC_Vars.cfg", 4)],
+        mc_runs=[("MC_Vars", "MC_Vars.cfg" if tier == "quick" else "MC_Vars_f.cfg", 4)],
         groups=[("Judge_Model", recs)], prefixes=["C17"], sig_of=sig_of)
 
 
